@@ -254,6 +254,14 @@ def handle (toks : List String) : String :=
           let (d, r) ← takeV3s n r
           let (τ1, _) ← takeV3 r
           pure (showRat (stressEnergy full cd τ1 x d))
+      | "stressT" => done do
+          let (full, r) ← takeBool xs
+          let (cd, r) ← takeBool r
+          let (n, r) ← takeNat r
+          let (x, r) ← takeN n r
+          let (d, r) ← takeV3s n r
+          let (τ, _) ← takeM3 r
+          pure (showRat (stressEnergyT full cd τ x d))
       | "surface" => done do
           let (cd, r) ← takeBool xs
           let (n, r) ← takeNat r
